@@ -369,6 +369,15 @@ def rules(rep, m):
         r4.fail()
     rep.sample({"rule": "R-C19-4", "reset_by": {k: sorted(v) for k, v in reset_by.items() if k in m.globals and m.globals[k].tls}})
 
+    # R-C19-5 ------------------------------------------------------------
+    r5 = rep.rule("R-C19-5", "the thread-local parameter memos that R-C19-4 accepts as result-neutral are neutral only if they are "
+                  "exact: the cached values are reused only for a parameter equal to the stored key, and key and values are "
+                  "updated together (shared with R-C15-6) - a memo reused for a merely close parameter makes a trial's results "
+                  "depend on the parameters of the trial that ran before it on the same worker", floor=2)
+    api_, S_ = c15.memo_state(m)
+    c15.memo_coherence(rep, r5, m, api_, S_)
+
+
 
 def run(tier="quick"):
     models = common.load_models(tier)
